@@ -36,7 +36,7 @@ func TestVerif_C17_Marshaler(t *testing.T) {
 		var steps []step
 		n := rapid.IntRange(3, 14).Draw(rt, "n")
 		for i := 0; i < n; i++ {
-			k := rapid.SampledFrom([]string{"advance", "advance", "exchange", "exchange", "marshal", "late-register"}).Draw(rt, "kind")
+			k := rapid.SampledFrom([]string{"advance", "advance", "exchange", "exchange", "marshal", "marshal", "late-register", "own-previous", "own-previous"}).Draw(rt, "kind")
 			st := step{kind: k, peer: rapid.IntRange(0, 1).Draw(rt, "peer")}
 			if k == "advance" {
 				switch rapid.IntRange(0, 3).Draw(rt, "dk") {
@@ -54,7 +54,7 @@ func TestVerif_C17_Marshaler(t *testing.T) {
 		}
 		var trace []string
 		violation, msg := "", ""
-		crossed, exchanged := false, false
+		crossed, exchanged, ownPrevious := false, false, false
 		synctest.Test(t, func(t *testing.T) {
 			g, _, _ := NewGroupMultiMember()
 			topic := "/orbitdb/verif-store-address"
@@ -68,6 +68,8 @@ func TestVerif_C17_Marshaler(t *testing.T) {
 				ri         *rendezvous.RotationInterval
 				registered bool
 				period     time.Time // period of the last resolve
+				last, prev []byte    // the payloads of the last resolve and of the last resolve of the period before the rotation
+				rotatedAt  time.Time // when a resolve first found a new period
 			}
 			mk := func(id string) *side {
 				ss, _ := secretstore.NewInMemSecretStore(nil)
@@ -93,8 +95,9 @@ func TestVerif_C17_Marshaler(t *testing.T) {
 				if err == nil {
 					if !s.period.IsZero() && !s.period.Equal(period()) {
 						crossed = true
+						s.prev, s.rotatedAt = s.last, time.Now()
 					}
-					s.period = period()
+					s.period, s.last = period(), b
 				}
 				return b, err
 			}
@@ -119,6 +122,35 @@ func TestVerif_C17_Marshaler(t *testing.T) {
 					}
 					if _, err := resolve(s); err != nil {
 						violation, msg = "marshal-refused", fmt.Sprintf("Marshal for a registered topic failed: %v", err)
+					}
+				case "own-previous":
+					// a heads message the peer marshalled itself in the period before its last rotation (in flight across the
+					// boundary, or echoed back) is still accepted by it during the grace period
+					if !s.registered {
+						continue
+					}
+					if s.prev == nil || !s.period.Equal(period()) || time.Since(s.rotatedAt) > rendezvous.RotationGracePeriod {
+						// make it so: resolve, cross one boundary, resolve again
+						if _, err := resolve(s); err != nil {
+							violation, msg = "marshal-refused", fmt.Sprintf("Marshal for a registered topic failed: %v", err)
+							continue
+						}
+						time.Sleep(interval)
+						synctest.Wait()
+						if _, err := resolve(s); err != nil {
+							violation, msg = "marshal-refused", fmt.Sprintf("Marshal for a registered topic failed: %v", err)
+							continue
+						}
+					}
+					if s.prev == nil || !s.period.Equal(period()) || time.Since(s.rotatedAt) > rendezvous.RotationGracePeriod {
+						continue
+					}
+					ownPrevious = true
+					var out iface.MessageExchangeHeads
+					if err := s.mm.Unmarshal(s.prev, &out); err != nil {
+						violation, msg = "own-previous-refused", fmt.Sprintf("a heads message carrying the peer's own previous rotation value was refused %v after its rotation: %v", time.Since(s.rotatedAt), err)
+					} else if out.Address != topic {
+						violation, msg = "own-previous-wrong-topic", fmt.Sprintf("heads message mapped to %q", out.Address)
 					}
 				case "exchange":
 					if !s.registered || !o.registered {
@@ -151,7 +183,7 @@ func TestVerif_C17_Marshaler(t *testing.T) {
 		})
 		acct.Case(crossed && exchanged, fmt.Sprintf("mm|%v|%s", interval, strings.Join(trace, ";")), func() any {
 			return map[string]any{"kind": "marshaler-history", "interval": interval.String(), "ops": trace}
-		}, "marshaler", lbl07(crossed, "marshaler/across-deadline"), lbl07(exchanged, "marshaler/exchange"))
+		}, "marshaler", lbl07(crossed, "marshaler/across-deadline"), lbl07(exchanged, "marshaler/exchange"), lbl07(ownPrevious, "marshaler/own-previous-in-grace"))
 		if violation != "" {
 			acct.Violation("marshaler/"+violation, "TestVerif_C17_Marshaler", map[string]any{"interval": interval.String(), "trace": trace, "msg": msg})
 			rt.Fatalf("C17 %s: %s\n%s", violation, msg, strings.Join(trace, "\n"))
